@@ -41,12 +41,16 @@ def _scenario(draw, tier):
         cfg["knobs"]["max_attempts"] = draw(st.sampled_from([1, 1, 3, 100]))
     ops = []
     for _ in range(draw(st.integers(1, 4))):
-        k = draw(st.sampled_from(["steps", "steps", "steps", "steps", "exchange", "estimate_mass", "restart"]))
+        k = draw(st.sampled_from(["steps", "steps", "steps", "steps", "exchange", "estimate_mass", "restart"]
+                                 + (["estimate_mass", "estimate_mass", "steps"] if cfg["kind"] == "hmc" else [])))
         if k == "restart":
             # save / load; the file is loaded twice and the second restored sampler keeps stepping next to this one
             ops.append(["restart"])
         elif k == "estimate_mass" and cfg["kind"] == "hmc":
+            if not any(o[0] == "steps" and o[1] >= 20 for o in ops):
+                ops.append(["steps", 20])  # (the re-tuning needs 2d + 6 samples)
             ops.append(["estimate_mass", draw(st.booleans())])
+            ops.append(["steps", draw(st.sampled_from([3, 8]))])
         elif k == "steps" or cfg["kind"] == "ensemble" or k == "estimate_mass":
             ops.append(["steps", draw(st.sampled_from([1, 3, 8, 20]))])
         else:
